@@ -6,6 +6,8 @@ LEVEL_NOTE = ("Trusted base: CPython 3.12 (/venv/bin/python), eval/tokenize/frac
               "oracles under /verif/vf, and that sfc_models imports from the /repo working tree (asserted at "
               "start, recorded in evidence).")
 CLAIMS = {
+ 'C12': ("value-preservation post-condition on AddTerm histories and create_equation_from_terms (exact valuations); in-situ AddTerm wrapper",
+         "Held on K observed histories: after every AddTerm the rendered RHS compiles and equals lead + signed sum under exact valuations; term lists keep their sum and the caller's list. Leads with a top-level operator weaker than '+' are outside the generated class.", "3/C12"),
  'C13': ("by-construction token lists + token-stream hygiene + value preservation under non-merging maps; in-situ wrappers on the three token functions",
          "Held on K observed executions: random expressions x renaming maps (swap/cycle/chain/overlap) with expected token streams known from the generator, plus every call the book builders make, judged by wrappers. Says nothing about expression classes not generated.", "3/C13"),
 }
